@@ -272,8 +272,8 @@ func (x *ecImpl) call(n int64, viaRender bool) int64 {
 	reg, isReg := x.lastReg[n]
 
 	// S1: the most recent registration is what is served, whatever the configuration
-	if isReg && (res != reg || anyRead) {
-		x.fail("S1: %s was last registered as v%d but the call gave %d (loader reads %v)", name, reg, res, reads)
+	if isReg && (res != x.w.wantOut(reg) || anyRead) {
+		x.fail("S1: %s was last registered as v%d (a call for it shows %d) but the call gave %d (loader reads %v)", name, reg, x.w.wantOut(reg), res, reads)
 	}
 	// S2: caching disabled => every call reads the loaders again
 	if !isReg && !cacheOn && !anyRead && len(x.loaders) > 0 {
@@ -292,8 +292,16 @@ func (x *ecImpl) call(n int64, viaRender bool) int64 {
 				break
 			}
 		}
-		if anyHolder && res != holderFile.ver {
-			x.fail("S5: loaders were read, loader %d holds %q (v%d) for %s, but %d was served", holderIdx, holderFile.src, holderFile.ver, name, res)
+		if anyHolder && res != x.w.wantOut(holderFile.ver) {
+			x.fail("S5: loaders were read, loader %d holds %.40q (v%d, a call for it shows %d) for %s, but the call gave %d", holderIdx, holderFile.src, holderFile.ver, x.w.wantOut(holderFile.ver), name, res)
+		}
+		// a first holder whose text is no template: the call is an error and nothing is put into (or taken out of) the cache
+		if anyHolder && x.w.kind(holderFile.ver) == c15NoParse {
+			namesAfter := x.e.GetCachedTemplateNames()
+			sort.Strings(namesAfter)
+			if strings.Join(namesAfter, "\x00") != strings.Join(namesBefore, "\x00") {
+				x.fail("S5: the call for %s failed on the unparsable text of its first holder (loader %d) and changed the cached names %v -> %v", name, holderIdx, namesBefore, namesAfter)
+			}
 		}
 		if !anyHolder && res != ecNotFound {
 			x.fail("S6: loaders were read, none has %s, result %d", name, res)
@@ -372,24 +380,41 @@ func (x *ecImpl) do(o ecOp) (obs []int64) {
 				x.e.RegisterLoader(l)
 			}
 		case "regstr":
-			if err := x.e.RegisterString(ecName(a(0)), x.w.src(a(1))); err != nil {
+			err := x.e.RegisterString(ecName(a(0)), x.w.src(a(1)))
+			if x.w.kind(a(1)) == c15NoParse {
+				// no registration: the name keeps what it had
+				if err == nil {
+					x.fail("S1: RegisterString accepted the unparsable text %.40q", x.w.src(a(1)))
+				}
+				return
+			}
+			if err != nil {
 				x.fail("RegisterString: %v", err)
 			}
 			x.lastReg[a(0)] = a(1)
 		case "regtpl":
 			// even versions: ParseTemplate + RegisterTemplate; odd versions: RegisterCompiledTemplate
+			noParse := x.w.kind(a(1)) == c15NoParse
 			if a(1)%2 == 0 {
 				t, err := x.e.ParseTemplate(x.w.src(a(1)))
 				if err != nil {
-					x.fail("ParseTemplate: %v", err)
+					if !noParse {
+						x.fail("ParseTemplate: %v", err)
+					}
 					return
 				}
 				x.e.RegisterTemplate(ecName(a(0)), t)
 			} else {
 				c := &twig.CompiledTemplate{Name: ecName(a(0)), Source: x.w.src(a(1))}
 				if err := x.e.RegisterCompiledTemplate(c); err != nil {
-					x.fail("RegisterCompiledTemplate: %v", err)
+					if !noParse {
+						x.fail("RegisterCompiledTemplate: %v", err)
+					}
+					return
 				}
+			}
+			if noParse {
+				x.fail("S1: the unparsable text %.40q was accepted as a template", x.w.src(a(1)))
 			}
 			x.lastReg[a(0)] = a(1)
 		case "put":
@@ -470,7 +495,10 @@ func ecRun(e *Env, w ecWorld, ops []ecOp) (*ecMismatch, [][]int64, error) {
 		first = &ecMismatch{step: len(ops) - 1, key: "oracle-loader", what: x.pending[0],
 			broken: ecOracleBroken("loader"), impl: obs[len(obs)-1]}
 	}
-	if e.Model == nil {
+	// the sentences computed directly in Go (c15_broken.go), on every history
+	first = c15RefCompare(w, ops, obs, first)
+	// EngineCache.step has no source that does not parse; a render-failing version is "served" there
+	if e.Model == nil || w.uses(ops, c15NoParse) {
 		return first, obs, nil
 	}
 	resp, err := e.Model.Call(map[string]any{"op": "enginecache_run", "names": ecNames, "ops": ecOpsJSON(ops)})
@@ -495,8 +523,8 @@ func ecRun(e *Env, w ecWorld, ops []ecOp) (*ecMismatch, [][]int64, error) {
 		if len(m) < 2 {
 			return nil, obs, fmt.Errorf("enginecache_run: short step")
 		}
-		spec := m[1]
-		mm := append([]int64{m[0]}, m[2:]...) // drop the spec slot
+		spec := w.wantOut(m[1])
+		mm := append([]int64{w.wantOut(m[0])}, m[2:]...) // drop the spec slot
 		same := len(mm) == len(obs[k])
 		for i := 0; same && i < len(mm); i++ {
 			same = mm[i] == obs[k][i]
@@ -851,6 +879,7 @@ func runC15(e *Env) error {
 	r.Rule = "(0) 40-step histories of file writes / removals / renders over FileSystemLoader with three search paths, two registered loaders and a ChainLoader: a long-lived engine (cache off; cache + auto-reload) renders what an engine created now renders; (0b) histories over FileSystemLoader / CompiledLoader (bare and inside a ChainLoader) whose writes keep or change modification time (newer, same, older, sub-second), length and inode independently, removals and re-creations with identical metadata: loader.Load, a cache-less engine and an engine created now over the long-lived loader give the content as written, caching engines what the six sentences say; operation histories on a fresh twig.Engine with 2–4 in-memory loaders (timestamp-aware and not) and 3 names; every source is a " +
 		"version tag, or (content sweep and half of the random histories) some versions stand for unusual sources — empty, blank-only, comment-only, \"0\" / \"false\" / \"null\", > 4096 bytes — " +
 		"and the loaders' sources are held by the harness map, by the library's ArrayLoader (SetTemplate / NewArrayLoader) or by an ArrayLoader inside a ChainLoader, whose Load / Exists are also compared with what was put; " +
+		"and (broken-source sweep and a third of the random histories) some versions stand for a text that cannot be served — it does not parse (8 kinds of syntax error, one beyond 4096 bytes) or it parses and fails when rendered — in a loader in front of, behind or instead of a good copy, or handed to a registration: the first loader that has the name still wins (an error, no later loader read, nothing cached or dropped), expected observations from the sentences computed directly in Go (c15Ref, run on every history next to EngineCache.step) and from pinned answers; " +
 		"(a) pinned regression histories, (a') the pinned histories and every word of length ≤ 2–3 in every backing × rotation of the unusual sources, (b) every word of length ≤ N over a 10-letter alphabet acting on one name, from 3 loader " +
 		"setups, (c) random histories of ≤ 60 ops over 11 operation kinds; after every op: served tag / error class, Load and GetModifiedTime " +
 		"counters per loader×name, cache keys and flags are compared with EngineCache.step, served with Spec.expected, and the six sentences are " +
@@ -876,6 +905,11 @@ func runC15(e *Env) error {
 	// (a') the same histories with unusual sources (empty, blank, comment-only, …) and with the library's own
 	// ArrayLoader / ChainLoader holding the loaders' sources (c15_content.go)
 	if ok, err := ecContentSweep(e); err != nil || !ok {
+		return err
+	}
+	// (a'') sources that cannot be served: a loader (or a registration) with a text that does not parse, or that parses
+	// and fails when rendered (c15_broken.go)
+	if ok, err := c15BrokenSweep(e); err != nil || !ok {
 		return err
 	}
 	// (b) exhaustive small scope
